@@ -245,6 +245,10 @@ SIG = {
                     'Int × Bytes'),
     'pubkey_get_segwit_address': ('keys.py', 'PublicKey.get_segwit_address',
                                   [('segwit_hrp', 'List Char'), ('hashlib_sha256', 'Bytes → Bytes'), ('self_key_string', 'Bytes')], 'Int × Bytes'),
+    # PublicKey.get_taproot_address: the P2TR object — (witness version, output key x) and the parity flag it stores
+    'pubkey_get_taproot_address': ('keys.py', 'PublicKey.get_taproot_address',
+                                   [('segwit_hrp', 'List Char'), ('hashlib_sha256', 'Bytes → Bytes'), ('OPS', 'List (String × Bytes)'),
+                                    ('self_key_string', 'Bytes'), ('scripts', 'Py.PyScripts')], '(Int × Bytes) × Bool'),
     # addresses derived from a public key: the hash160 check (a real string: len, int(., 16) under try/except), the constructor called
     # with hash160 only (what self.hash160 is set to), PublicKey.get_address (the stored hex string of the P2PKH address object)
     'is_hash160_valid': ('keys.py', 'Address._is_hash160_valid', [('hash160', 'List Char')], 'Bool'),
@@ -312,7 +316,8 @@ STR_CALLS = {'bech32_create_checksum': ('bech32_create_checksum', False), 'bech3
              'decode': ('segwit_decode', False)}
 # functions over the script tree; recursive ones get a fuel parameter (the depth of the tree + 1: proved never exhausted)
 TREEFUNS = {'tag_hashed_merkle_root': ('get_tag_hashed_merkle_root', '(Py.treeDepth scripts + 1)'), 'calculate_tweak': (None, None),
-            'sign_taproot_input': (None, None), 'pubkey_to_taproot_hex': (None, None), 'pk_sign_taproot_input': (None, None), 'traverse_level': ('traverse_level', '(Py.treeDepth level + 1)'),
+            'sign_taproot_input': (None, None), 'pubkey_to_taproot_hex': (None, None), 'pk_sign_taproot_input': (None, None),
+            'pubkey_get_taproot_address': (None, None), 'traverse_level': ('traverse_level', '(Py.treeDepth level + 1)'),
             'generate_merkle_path': (None, None), 'control_block_to_bytes': (None, None)}
 # a nested function's `nonlocal` counter, threaded: parameter in, extra result component out
 NONLOCAL_STATE = {'traverse_level': 'traversed'}
@@ -809,6 +814,13 @@ class Tr:
             def is_self_pub(x):
                 return (isinstance(x, ast.Call) and isinstance(x.func, ast.Attribute) and x.func.attr == 'get_public_key' and not x.args
                         and isinstance(x.func.value, ast.Name) and x.func.value.id == 'self')
+            if s.name == 'pubkey_get_taproot_address':
+                if (isinstance(n.func, ast.Name) and f == 'P2trAddress' and not a and sorted(k.arg for k in n.keywords) == ['is_odd', 'witness_program']):
+                    kw_ = {k.arg: k.value for k in n.keywords}
+                    ver = s.check_subclass_ctor('P2trAddress', ['address', 'witness_program', 'version'], base='SegwitAddress', fixed={'version'},
+                                                extra=('is_odd',))
+                    t = s.eff(f'segwit_init segwit_hrp none (some {s.e(kw_["witness_program"])}) {lean_str(CONST_STRS[ver["version"]])}')
+                    return f'({t}, {s.cond(kw_["is_odd"])})'
             if s.name == 'pubkey_to_taproot_hex':
                 if (f == 'calculate_tweak' and len(a) == 2 and isinstance(a[0], ast.Name) and a[0].id == 'self' and istree(a[1])
                         and not n.keywords):
@@ -822,6 +834,10 @@ class Tr:
                     return s.eff(f'tweak_taproot_privkey self_key_bytes {s.e(a[1])}')
                 if f == 'schnorr_sign' and len(a) == 3:
                     return s.eff('schnorr_sign hashlib_sha256 ' + ' '.join(s.e(x) for x in a))
+        if (s.name == 'pubkey_get_taproot_address' and isinstance(n, ast.Call) and isinstance(n.func, ast.Attribute) and n.func.attr == 'to_taproot_hex'
+                and isinstance(n.func.value, ast.Name) and n.func.value.id == 'self' and len(n.args) == 1 and not n.keywords
+                and isinstance(n.args[0], ast.Name) and n.args[0].id in s.treevars):
+            return s.eff(f'pubkey_to_taproot_hex hashlib_sha256 OPS self_key_string {n.args[0].id}')       # (hex string as its bytes, parity)
         if (s.name == 'sign_taproot_input' and isinstance(n, ast.Call) and isinstance(n.func, ast.Attribute) and n.func.attr == 'to_string'
                 and not n.args and isinstance(n.func.value, ast.Attribute) and n.func.value.attr == 'key'
                 and isinstance(n.func.value.value, ast.Name) and n.func.value.value.id == 'self'):
@@ -1297,7 +1313,7 @@ class Tr:
                         return
         s.fail(n, f'class {cls} not found')
 
-    def check_subclass_ctor(s, cls, params, base='Address', fixed=()):
+    def check_subclass_ctor(s, cls, params, base='Address', fixed=(), extra=()):
         """`cls.__init__(self, p1=None, …)` only forwards its parameters to the base constructor under the same names; the parameters in
         `fixed` are replaced by a module constant (returned by name)"""
         for c in s.tree.body:
@@ -1307,6 +1323,13 @@ class Tr:
                         names = [a.arg for a in m.args.args[1:]]
                         body = [st for st in m.body if not (isinstance(st, ast.Expr) and isinstance(st.value, ast.Constant))]
                         dflt = dict(zip(names[len(names) - len(m.args.defaults):], m.args.defaults))
+                        stores = {}
+                        while body and isinstance(body[0], ast.Assign) and len(body[0].targets) == 1 and isinstance(body[0].targets[0], ast.Attribute) \
+                                and getattr(body[0].targets[0].value, 'id', '') == 'self' and isinstance(body[0].value, ast.Name) \
+                                and body[0].value.id in extra:
+                            stores[body[0].targets[0].attr] = body[0].value.id; body = body[1:]
+                        if sorted(stores.values()) != sorted(extra): s.fail(m, f'{cls}.__init__ does not store {list(extra)} as given')
+                        names = [n_ for n_ in names if n_ not in extra]
                         ok = (names == params and all((p_ in fixed) or (isinstance(dflt.get(p_), ast.Constant) and dflt[p_].value is None) for p_ in params)
                               and len(body) == 1 and isinstance(body[0], ast.Expr) and isinstance(body[0].value, ast.Call))
                         consts = {}
@@ -1340,7 +1363,7 @@ class Tr:
         return False
 
     def isbool(s, n):
-        if (s.name == 'pubkey_to_taproot_hex' and isinstance(n, ast.Subscript) and isinstance(n.value, ast.Name) and n.value.id in s.pairvars
+        if (s.name in ('pubkey_to_taproot_hex', 'pubkey_get_taproot_address') and isinstance(n, ast.Subscript) and isinstance(n.value, ast.Name) and n.value.id in s.pairvars
                 and isinstance(n.slice, ast.Constant) and n.slice.value == 1): return True        # (bytes, bool)[1]
         return (isinstance(n, (ast.Compare, ast.BoolOp)) or (isinstance(n, ast.UnaryOp) and isinstance(n.op, ast.Not))
                 or (isinstance(n, ast.Constant) and isinstance(n.value, bool)))
@@ -1365,14 +1388,14 @@ class Tr:
             return 'bytes' if s.isbytes(n) else None
         if isinstance(n, ast.Subscript) and isinstance(n.slice, ast.Slice): return s.kind(n.value)
         if isinstance(n, ast.Subscript) and s.is_unpack_from(n.value): return 'bytes' if s.isbytes(n) else None
-        if s.name == 'pubkey_to_taproot_hex' and isinstance(n, ast.Subscript) and s.isbytes(n): return 'bytes'
+        if s.name in ('pubkey_to_taproot_hex', 'pubkey_get_taproot_address') and isinstance(n, ast.Subscript) and s.isbytes(n): return 'bytes'
         return None
 
     def isbytes(s, n):
         """is the value a sequence (bytes or list), i.e. does `+` mean concatenation"""
-        if (s.name == 'pubkey_to_taproot_hex' and isinstance(n, ast.Subscript) and isinstance(n.value, ast.Name) and n.value.id in s.pairvars
+        if (s.name in ('pubkey_to_taproot_hex', 'pubkey_get_taproot_address') and isinstance(n, ast.Subscript) and isinstance(n.value, ast.Name) and n.value.id in s.pairvars
                 and isinstance(n.slice, ast.Constant) and n.slice.value == 0): return True        # (bytes, bool)[0]
-        if s.name == 'pubkey_to_taproot_hex' and isinstance(n, ast.Subscript) and isinstance(n.slice, ast.Slice): return s.isbytes(n.value)
+        if s.name in ('pubkey_to_taproot_hex', 'pubkey_get_taproot_address') and isinstance(n, ast.Subscript) and isinstance(n.slice, ast.Slice): return s.isbytes(n.value)
         if isinstance(n, ast.Constant): return isinstance(n.value, bytes)
         if isinstance(n, (ast.List, ast.ListComp)): return True
         if isinstance(n, ast.Attribute) and isinstance(n.value, ast.Name) and n.value.id == 'self': return 'self_' + n.attr in s.bytesvars
@@ -1662,8 +1685,10 @@ class Tr:
                         and s.isbytes(a_.func.value)): s.fail(st, 'first component is not <bytes>.hex()')
                 return s.flush(ind) + [f'{ind}return ({s.e(a_.func.value)}, {s.cond(b_)})']
             if (isinstance(st, ast.Assign) and len(st.targets) == 1 and isinstance(st.targets[0], ast.Name)
-                    and isinstance(st.value, ast.Call) and getattr(st.value.func, 'id', '') in (
-                        ('traverse_level', 'tweak_taproot_pubkey') if s.name == 'pubkey_to_taproot_hex' else ('traverse_level',))):
+                    and isinstance(st.value, ast.Call) and (getattr(st.value.func, 'id', '') in (
+                        ('traverse_level', 'tweak_taproot_pubkey') if s.name == 'pubkey_to_taproot_hex' else ('traverse_level',))
+                        or (s.name == 'pubkey_get_taproot_address' and isinstance(st.value.func, ast.Attribute)
+                            and st.value.func.attr == 'to_taproot_hex'))):
                 nm = st.targets[0].id
                 v = s.e(st.value)
                 kw_ = '' if nm in s.declared else 'let mut '
